@@ -26,7 +26,15 @@ func runC03(t *core.Tape, st *core.Stats) *core.Violation {
 		err    error
 	)
 
-	if p := core.Call(func() { schema, err = spec.BuildSchema(nil) }); p != nil {
+	viaHistory := false
+
+	defer func() {
+		if viaHistory {
+			st.Inc("probe:schema-built-through-edit-history")
+		}
+	}()
+
+	if p := core.Call(func() { schema, viaHistory, err = spec.BuildSchemaAnyHow(t) }); p != nil {
 		return viol(P, "no-panic", p.Func, "build-schema:"+p.Class, "building the schema panicked: %s", p.Value)
 	}
 
